@@ -26,6 +26,14 @@ type tcase struct {
 	Setup cesh.Setup `json:"setup"` // Script unused: the history is Ops
 	Ops   []op       `json:"ops"`
 	Final []op       `json:"final"`
+	// Rebound: final read I is repeated through ONE iterator that is opened on the (narrow)
+	// range Open and re-targeted with SetBounds to the read's range (iterator reuse).
+	Rebound *rebound `json:"rebound,omitempty"`
+}
+
+type rebound struct {
+	I    int      `json:"i"`
+	Open [2]int64 `json:"open"`
 }
 
 type chanRead struct {
@@ -50,6 +58,9 @@ type result struct {
 	FinalB []out   `json:"final_b"`
 	Panic  *string `json:"panic"`
 	Fatal  string  `json:"fatal,omitempty"`
+	// the re-bounded iterator read of final read Rebound.I, before and after the reopen
+	RebA *out `json:"reb_a,omitempty"`
+	RebB *out `json:"reb_b,omitempty"`
 }
 
 // held is a frame returned by DB.Read that the caller keeps.
@@ -88,6 +99,34 @@ func doRead(env *cesh.Env, o op, kept *[]held, dst *[]out) {
 	r.Read = decodeFrame(env, o.Keys, fr)
 	*kept = append(*kept, held{keys: o.Keys, fr: fr, dst: dst, at: len(*dst)})
 	*dst = append(*dst, r)
+}
+
+// reboundRead is DB.Read's loop (SeekFirst; Next(TimeSpanMax)...; Extend) on an iterator that
+// was opened with other bounds and then re-targeted with SetBounds.
+func reboundRead(env *cesh.Env, o op, open [2]int64) *out {
+	r := &out{Read: []chanRead{}}
+	it, err := env.DB.OpenIterator(cesium.IteratorConfig{
+		Channels: o.Keys,
+		Bounds:   telem.TimeRange{Start: telem.TimeStamp(open[0]), End: telem.TimeStamp(open[1])},
+	})
+	if err != nil {
+		r.Err, r.Msg = cesh.ErrClass(err), err.Error()
+		return r
+	}
+	it.SeekFirst()
+	it.Next(telem.TimeSpanMax)
+	it.SetBounds(telem.TimeRange{Start: telem.TimeStamp(o.TR[0]), End: telem.TimeStamp(o.TR[1])})
+	var fr cesium.Frame
+	if it.SeekFirst() {
+		for it.Next(telem.TimeSpanMax) {
+			fr = fr.Extend(it.Value())
+		}
+	}
+	r.Read = decodeFrame(env, o.Keys, fr)
+	if err := it.Close(); err != nil {
+		r.Err, r.Msg = cesh.ErrClass(err), err.Error()
+	}
+	return r
 }
 
 func runCase(c tcase) (res result) {
@@ -130,12 +169,19 @@ func runCase(c tcase) (res result) {
 	for _, o := range c.Final {
 		doRead(env, o, &kept, &res.FinalA)
 	}
+	reb := c.Rebound != nil && c.Rebound.I >= 0 && c.Rebound.I < len(c.Final)
+	if reb {
+		res.RebA = reboundRead(env, c.Final[c.Rebound.I], c.Rebound.Open)
+	}
 	if r := env.Step(cesh.SOp{Op: "reopen"}); r.Err != 0 {
 		res.Fatal = "reopen failed: " + r.Msg
 		return
 	}
 	for _, o := range c.Final {
 		doRead(env, o, &kept, &res.FinalB)
+	}
+	if reb {
+		res.RebB = reboundRead(env, c.Final[c.Rebound.I], c.Rebound.Open)
 	}
 	return
 }
